@@ -162,7 +162,10 @@ func doLiveness(c *kit.Ctx, x lvCase) {
 
 func runLiveness(c *kit.Ctx) {
 	conds := []string{"True", "False", "Unknown", "Init"}
-	gaps := []time.Duration{0, -10 * time.Minute, time.Minute}
+	gaps := []time.Duration{0, -10 * time.Minute}
+	if c.Thorough() {
+		gaps = append(gaps, time.Minute, -20*time.Minute)
+	}
 	// clock sweep at both thresholds
 	for _, l := range conds {
 		for _, r := range conds {
@@ -199,6 +202,9 @@ func runLiveness(c *kit.Ctx) {
 		{"False", "Unknown", "reg", 0},                   // both timeouts
 		{"True", "Unknown", "reg", time.Minute},          // registration timeout only
 		{"False", "False", "launch", -10 * time.Minute}, // both, coinciding thresholds
+	}
+	if !c.Thorough() {
+		settings = settings[:3]
 	}
 	for _, s := range settings {
 		for _, pool := range []string{"nolabel", "missing", "healthy", "willpatch", "notowner"} {
